@@ -122,8 +122,13 @@ Definition bare_ok (name : list byte) : bool :=      (* a name printed without |
    symbols inside lists as it writes them elsewhere (repo_fixes C03-4); between bars | \ and control bytes are
    escaped (repo_fixes C03-5), so every ASCII name that gets bars is inside the guard;
    keywords get bars like other symbols (repo_fixes C03-6). *)
+(* The reader takes bytes above 0x7f as token constituents (repo_fixes C03-8), so non-ASCII names are printed and
+   read like any other.  The model's caseName is the ASCII one: a name with bytes above 0x7f is inside the guard
+   when *print-case* is nil (no conversion); with a conversion in force only ASCII names are (strings.ToUpper /
+   ToLower on cased non-ASCII letters are outside the model). *)
+Definition case_is_none (c : pcfg) : bool := match p_case c with CNone => true | _ => false end.
 Definition sym_ok (c : pcfg) (name : list byte) : bool :=
-  forallb (fun b => (b <? 128)%N) name &&
+  forallb (fun b => (b <? 256)%N) name && (forallb (fun b => (b <? 128)%N) name || case_is_none c) &&
   match name with
   | [] => true
   | _ => if need_pipes name then true else bare_ok name
